@@ -7,6 +7,7 @@ CONSTANTS
   AllowRelate = FALSE
   AllowQueryX = FALSE
   AllowSweep = TRUE
+  AllowDeclare = FALSE
   CopyModes = {}
   UnregisteredModes = {}
   Hist = FALSE
